@@ -231,7 +231,7 @@ type stats struct {
 	mu                                                sync.Mutex // tlcStates and heldMiss are written by the validating goroutine
 	sessions, events, requests, callbacks, nontrivial int
 	closed, exited, noExit, cancelled, held, heldMiss int
-	crashes, hangs, pipe                              int
+	crashes, hangs, pipe, pipeRetries                 int
 	pipeLabels                                        map[string]int
 	profiles                                          map[string]int
 	kinds                                             map[string]int
@@ -581,7 +581,7 @@ func Run(r *core.Run) {
 	}
 	batch := r.Pick(20, 40)
 	for start := 0; start < nsess && r.Violations() <= 5; start += batch {
-		if r.Thorough() && time.Since(sessStart) > 14*time.Minute {
+		if r.Thorough() && time.Since(sessStart) > 11*time.Minute {
 			r.Logf("service: time budget of the session driver reached after %d of %d sessions", start, nsess)
 			break
 		}
@@ -622,6 +622,7 @@ func Run(r *core.Run) {
 	close(jobs)
 	<-valDone
 	r.Set("service_pipe_sessions", st.pipe)
+	r.Set("service_pipe_hangs_not_reproduced", st.pipeRetries)
 	r.Set("service_pipe_cut_labels", st.pipeLabels)
 	r.Set("service_pipe_rule", "a pipelining session = one real `esbuild --service` process, a wave of 3 packets with byte-array payloads (transform input / build stdinContents / on-load contents, each with a marker of its own) written cut at a chunking exported by TLC from ServiceStream.tla (label-first: region of each cut x first/later packet x flushed) or a seeded random one; every response is checked against the request's own payload (transform: byte-equal to api.Transform computed in the harness; builds: markers in the output files) by ServiceTrace (ObsOK)")
 	r.Set("service_sessions", st.sessions)
@@ -648,13 +649,13 @@ func Run(r *core.Run) {
 func init() { core.Register("C20S", Run) }
 
 // runPipe runs the pipelining sessions: quick = 12 chunkings (label-first) x
-// the 3 payload kinds; thorough = more chunkings, seeded random ones, mixed
+// the 3 payload kinds; thorough = 20 label-first + 20 seeded random ones, mixed
 // waves, every session on the plain and on the -race binary.
 func runPipe(r *core.Run, exes []sessionOpts, all []*chunking, jobs chan []*session, st *stats, account func(*session, sessionOpts) bool) {
 	rnd := rand.New(rand.NewSource(r.Seed*7919 + 31))
-	picked := pickChunkings(all, r.Pick(12, 40), rnd)
+	picked := pickChunkings(all, r.Pick(12, 20), rnd)
 	if r.Thorough() {
-		for i := 0; i < 40; i++ {
+		for i := 0; i < 20; i++ {
 			picked = append(picked, randomChunking(rnd, 2+rnd.Intn(3)))
 		}
 	}
@@ -707,9 +708,14 @@ func runPipe(r *core.Run, exes []sessionOpts, all []*chunking, jobs chan []*sess
 			seed := r.Seed*1000003 + int64(id)*7919 + 17
 			out[i] = runPipeSession(j.exe, id, seed, j.kinds, j.ch)
 			if out[i].Hang != "" {
+				// a hang is a verdict only if the same session hangs again; the
+				// repetition is what gets validated otherwise (counted, logged)
 				again := runPipeSession(j.exe, id, seed, j.kinds, j.ch)
 				if again.Hang == "" {
-					r.Infra("service session %d (seed %d): %s -- not reproduced with the same seed", id, seed, out[i].Hang)
+					r.Logf("service session %d (seed %d): %s -- not reproduced with the same seed, the repetition is validated instead", id, seed, out[i].Hang)
+					st.mu.Lock()
+					st.pipeRetries++
+					st.mu.Unlock()
 					out[i] = again
 				}
 			}
